@@ -651,7 +651,7 @@ class Unit:
             text, n31 = desugar_for_continue(text)
             if n31:
                 self.desugar_log.append(('D31', '%s: %d `if C { ..; continue; } REST` in a `for` body -> `if C { .. } else { REST }` (Verus for-loops have no `continue`)' % (e.qualname, n31)))
-        if e.d1:
+        if e.d1 or (not e.trusted and re.search(r'\|[^;{}=]*\bif\b[^;{}]*=>', text)):
             text, n1 = split_or_guards(text)
             if n1:
                 self.desugar_log.append(('D1', '%s: %d or-pattern arm(s) with a guard split into one arm per alternative' % (e.qualname, n1)))
@@ -1061,9 +1061,16 @@ def split_or_guards(text):
             # arms
             k = b + 1
             while True:
-                # skip whitespace/comments
-                while k < e - 1 and (not rf.code[k] or text[k].isspace()):
-                    k += 1
+                # skip whitespace/comments (not a leading char / string literal pattern, which is non-code in the mask as well)
+                while k < e - 1:
+                    if text[k].isspace():
+                        k += 1
+                    elif not rf.code[k] and (text.startswith('//', k) or text.startswith('/*', k)):
+                        k += 2
+                        while k < e - 1 and not rf.code[k]:
+                            k += 1
+                    else:
+                        break
                 if k >= e - 1:
                     break
                 arrow, _ = depth0_find(k, e - 1, ['=>'])
